@@ -1,609 +1,10 @@
-import Inkayaku.Gen.Rs.Board
-import Inkayaku.Gen.Rs.ZobristHistory
-import Inkayaku.Gen.Rs.Uci
-import Inkayaku.Gen.Rs.Heuristic
-import Inkayaku.Gen.Rs.Square
-import Inkayaku.Gen.Rs.KillerTable
-import Inkayaku.Gen.Rs.MoveOrder
-import Inkayaku.Gen.Rs.Fen
-import Inkayaku.Model.History
-import Inkayaku.Model.Board
-import Inkayaku.Model.Eval
-import Inkayaku.Model.Uci
-import Inkayaku.Model.FenSyntax
-import Inkayaku.Model.Search
-/-!
-# Translated Rust functions = hand-written model functions
-
-`Inkayaku/Gen/Rs/*.lean` is regenerated on every run from the CURRENT Rust sources by `/verif/translator` (`rs2lean`,
-a `syn`-based translator of a small subset of Rust; semantics: header of `Gen/Rs/Prelude.lean`).  This file proves,
-for each translated function, that it computes the same value as the hand-written model function the property
-theorems are about (and that it does not panic), under preconditions that are exactly the ranges the Rust types
-impose plus, where the Rust really can overflow, the exact no-overflow condition.
-
-A semantic change of one of these Rust functions changes the generated definition and breaks the proof here.
-
-| Rust                                                   | generated `Inkayaku.Rs.…`                | model                         | theorem |
-|--------------------------------------------------------|------------------------------------------|-------------------------------|---------|
-| `ZobristHistory::count_repetitions`                    | `ZobristHistory.count_repetitions`       | `History.countRepetitions`    | `rs_count_repetitions_eq` |
-| `Bitboard::ply_clock`                                  | `Bitboard.ply_clock`                     | `Board.plyClock`              | `rs_ply_clock_eq`, `rs_ply_clock_panics` |
-| `Heuristic::{win,loss,draw}_score`, `MAX_FULL_MOVES`   | `Heuristic.win_score` …                  | `Gen.winScore` …              | `rs_win_score` … |
-| `Heuristic::is_checkmate`                              | `Heuristic.is_checkmate`                 | `Eval.isCheckmateValue`       | `rs_is_checkmate_eq` |
-| `Heuristic::evaluate` (`evaluate_ongoing` opaque)      | `Heuristic.evaluate`                     | `Eval.evaluate`               | `rs_evaluate_eq` |
-| `Heuristic::score_from_value`                          | `Heuristic.score_from_value`             | `Eval.scoreFromValue`         | `rs_score_from_value_eq` |
-| `Square::from_chars`, `from_indices`, `to_square_index_from_indices` (`from_index` opaque) | `Square.from_chars` … | `Uci.squareFromChars` | `rs_from_chars_eq` |
-| `Fen::validate_rank`                                  | `Fen.validate_rank`                      | `FenSyntax.validateRank`      | `rs_validate_rank_eq` |
-| `KillerTable::get` / `put`                             | `KillerTable.get` / `.put`               | `Search.killerGet/killerPut`  | `rs_killer_get_eq`, `rs_killer_put_eq` |
-| `MvvLvaMoveOrder::{eval,move_bonus}`, key closure of `sort` | `MvvLvaMoveOrder.sort_key` …        | `Search.moveKey`              | `rs_sort_key_eq` |
--/
-
-namespace Inkayaku.Rs
-
-/-! ### Facts about the prelude -/
-
-theorem chk_eq_some {t : Ty} {x : Int} (h1 : t.lo ≤ x) (h2 : x ≤ t.hi) : chk t x = some x := by
-  simp [chk, h1, h2]
-
-theorem chk_eq_none {t : Ty} {x : Int} (h : x < t.lo ∨ t.hi < x) : chk t x = none := by
-  have : ¬ (t.lo ≤ x ∧ x ≤ t.hi) := by omega
-  simp [chk, this]
-
-theorem cast_eq_self {t : Ty} {x : Int} (h1 : t.lo ≤ x) (h2 : x ≤ t.hi) : cast t x = x := by
-  unfold cast Ty.modulus
-  rw [Int.emod_eq_of_lt (by omega) (by omega)]; omega
-
-theorem chk_i32 {x : Int} (h1 : -2147483648 ≤ x) (h2 : x ≤ 2147483647) : chk .i32 x = some x := chk_eq_some h1 h2
-theorem chk_u32 {x : Int} (h1 : 0 ≤ x) (h2 : x ≤ 4294967295) : chk .u32 x = some x := chk_eq_some h1 h2
-theorem chk_usize {x : Int} (h1 : 0 ≤ x) (h2 : x ≤ 18446744073709551615) : chk .usize x = some x := chk_eq_some h1 h2
-theorem cast_i32 {x : Int} (h1 : -2147483648 ≤ x) (h2 : x ≤ 2147483647) : cast .i32 x = x := cast_eq_self h1 h2
-theorem cast_usize {x : Int} (h1 : 0 ≤ x) (h2 : x ≤ 18446744073709551615) : cast .usize x = x := cast_eq_self h1 h2
-theorem cast_u16_eq (x : Int) : cast .u16 x = x % 65536 := by simp [cast, Ty.lo, Ty.modulus, Ty.hi]
-
-/-- value of a function that ends with a loop: the early-return value or a component of the final state -/
-def Ctl.val {ρ σ : Type} (f : σ → ρ) : Ctl ρ σ → ρ
-  | .ret r => r
-  | .next s => f s
-
-end Inkayaku.Rs
-
-namespace Inkayaku.Translated
-open Inkayaku.Rs Inkayaku.Board
-
-
-/-! ### a. `ZobristHistory::count_repetitions` -/
-
-theorem count_repetitions_loop (h : Nat → Nat) (z : Nat) (minIdx : Int) (hmin : 0 ≤ minIdx) :
-    ∀ (k : Nat) (cur : Int) (reps : Nat), (cur < minIdx ∨ cur + 2 ≤ 2 * (k : Int)) → -2 ≤ cur → cur ≤ 65535 → reps ≤ 2 →
-      ∃ r, ZobristHistory.count_repetitions.while_1 (fun i => (h i : Int)) (z : Int) minIdx (k + 1) cur (reps : Int) = some r ∧
-        Ctl.val (fun s => s.2) r = ((History.loop h z minIdx k cur reps : Nat) : Int) := by
-  intro k
-  induction k with
-  | zero =>
-    intro cur reps hen _ _ _
-    have hlt : ¬ cur ≥ minIdx := by omega
-    refine ⟨.next (cur, reps), ?_, ?_⟩
-    · unfold ZobristHistory.count_repetitions.while_1
-      simp only [hlt, if_false, Option.pure_def]
-    · simp [Ctl.val, History.loop]
-  | succ k ih =>
-    intro cur reps hen hlo hhi hreps
-    unfold ZobristHistory.count_repetitions.while_1 History.loop
-    by_cases hc : cur ≥ minIdx
-    · have hcu : cast .usize cur = cur := cast_usize (by omega) (by omega)
-      have hchk1 : chk .usize ((reps : Int) + 1) = some ((reps : Int) + 1) := chk_usize (by omega) (by omega)
-      have hchk2 : chk .i32 (cur - 2) = some (cur - 2) := chk_i32 (by omega) (by omega)
-      simp only [hc, if_true, hcu, hchk1, hchk2, Option.bind_eq_bind, Option.bind_some, Option.pure_def, Int.natCast_inj]
-      by_cases hz : h cur.toNat = z
-      · simp only [hz, if_true]
-        by_cases h3 : reps + 1 ≥ 3
-        · have h3' : (reps : Int) + 1 ≥ 3 := by omega
-          simp only [h3, h3', if_true]
-          exact ⟨_, rfl, rfl⟩
-        · have h3' : ¬ (reps : Int) + 1 ≥ 3 := by omega
-          simp only [h3, h3', if_false]
-          have := ih (cur - 2) (reps + 1) (by omega) (by omega) (by omega) (by omega)
-          simpa using this
-      · simp only [hz, if_false]
-        exact ih (cur - 2) reps (by omega) (by omega) (by omega) hreps
-    · refine ⟨.next (cur, reps), ?_, ?_⟩
-      · simp only [hc, if_false, Option.pure_def]
-      · simp [Ctl.val, hc]
-
-/-- **`ZobristHistory::count_repetitions` (translated from the Rust source) equals the model.**
-Preconditions = the Rust parameter types (`u16`).  Fuel `start + 1` is enough; the result is `some`, i.e. no
-arithmetic panic (index-out-of-bounds is not modelled by the function-style history, see `countRepetitionsChecked`). -/
-theorem rs_count_repetitions_eq (h : Nat → Nat) (start hm : Nat) (hs : start < 65536) (hh : hm < 65536) :
-    ZobristHistory.count_repetitions (fun i => (h i : Int)) (start : Int) (hm : Int) (start + 1) =
-      some ((History.countRepetitions h start hm : Nat) : Int) := by
-  unfold ZobristHistory.count_repetitions History.countRepetitions
-  by_cases h4 : start < 4
-  · have h4' : (start : Int) < 4 := by omega
-    simp [h4, h4']
-  · have h4' : ¬ (start : Int) < 4 := by omega
-    have c1 : cast .i32 (start : Int) = start := cast_i32 (by omega) (by omega)
-    have c2 : cast .i32 (hm : Int) = hm := cast_i32 (by omega) (by omega)
-    have c3 : cast .usize (start : Int) = start := cast_usize (by omega) (by omega)
-    have k1 : chk .i32 ((start : Int) - 4) = some ((start : Int) - 4) := chk_i32 (by omega) (by omega)
-    have k2 : chk .i32 ((start : Int) - (hm : Int)) = some ((start : Int) - (hm : Int)) := chk_i32 (by omega) (by omega)
-    obtain ⟨r, hr, hv⟩ := count_repetitions_loop h (h start) (max 0 ((start : Int) - (hm : Int))) (by omega) start
-      ((start : Int) - 4) 1 (by omega) (by omega) (by omega) (by omega)
-    simp only [h4, h4', if_false, c1, c2, c3, k1, k2, Option.bind_eq_bind, Option.bind_some, Option.pure_def, Int.toNat_natCast]
-    have hr' : ZobristHistory.count_repetitions.while_1 (fun i => (h i : Int)) (h start : Int) (max 0 ((start : Int) - (hm : Int))) (start + 1) ((start : Int) - 4) 1 = some r := hr
-    rw [hr']
-    cases r with
-    | ret r => simpa [Ctl.val] using hv
-    | next s => obtain ⟨a, b⟩ := s; simpa [Ctl.val] using hv
-
-
-
-#print axioms rs_count_repetitions_eq
-
-/-- non-vacuity / sanity: the Rust unit test's history (`count_repetitions(10, 8) = 3`, `(10, 7) = 2`), run through the
-TRANSLATED definition -/
-example : ZobristHistory.count_repetitions (fun i => ([123, 4312, 1, 2, 3, 4, 1, 2, 3, 4, 1].getD i 0 : Nat)) 10 8 11 = some 3 := by decide
-example : ZobristHistory.count_repetitions (fun i => ([123, 4312, 1, 2, 3, 4, 1, 2, 3, 4, 1].getD i 0 : Nat)) 10 7 11 = some 2 := by decide
-/-- too little fuel is `none`, never a wrong value -/
-example : ZobristHistory.count_repetitions (fun i => ([123, 4312, 1, 2, 3, 4, 1, 2, 3, 4, 1].getD i 0 : Nat)) 10 7 2 = none := by decide
-
-/-! ### b. ply_clock -/
-theorem rs_ply_clock_eq (b : Board) (hf : b.fullmove < 4294967296) (hno : 2 * (b.fullmove - 1) + b.turn < 4294967296) :
-    Bitboard.ply_clock (b.turn : Int) (b.fullmove : Int) = some ((plyClock b : Nat) : Int) := by
-  unfold Bitboard.ply_clock plyClock
-  have hs : satSub .u32 (b.fullmove : Int) 1 = ((b.fullmove - 1 : Nat) : Int) := by
-    simp only [satSub, Ty.lo, Ty.hi]; omega
-  have k1 : chk .u32 (2 * ((b.fullmove - 1 : Nat) : Int)) = some (2 * ((b.fullmove - 1 : Nat) : Int)) := chk_u32 (by omega) (by omega)
-  have k2 : chk .u32 (2 * ((b.fullmove - 1 : Nat) : Int) + (b.turn : Int)) = some (2 * ((b.fullmove - 1 : Nat) : Int) + (b.turn : Int)) :=
-    chk_u32 (by omega) (by omega)
-  simp only [hs, k1, k2, Option.bind_eq_bind, Option.bind_some, Option.pure_def, cast_u16_eq]
-  exact congrArg some (by omega)
-
-#print axioms rs_ply_clock_eq
-
-/-- non-vacuity: move 1 black to move, and the largest full-move number that does not overflow -/
-example : Bitboard.ply_clock 1 1 = some 1 := by decide
-example : Bitboard.ply_clock 1 2147483648 = some 65535 := by decide
-
-theorem rs_ply_clock_panics (b : Board) (hf : b.fullmove < 4294967296) (hno : ¬ 2 * (b.fullmove - 1) + b.turn < 4294967296) :
-    Bitboard.ply_clock (b.turn : Int) (b.fullmove : Int) = none := by
-  unfold Bitboard.ply_clock
-  have hs : satSub .u32 (b.fullmove : Int) 1 = ((b.fullmove - 1 : Nat) : Int) := by
-    simp only [satSub, Ty.lo, Ty.hi]; omega
-  simp only [hs, Option.bind_eq_bind, Option.pure_def]
-  by_cases h1 : 2 * ((b.fullmove - 1 : Nat) : Int) ≤ 4294967295
-  · rw [chk_u32 (by omega) h1, Option.bind_some, chk_eq_none (by simp only [Ty.hi]; omega)]; rfl
-  · rw [chk_eq_none (by simp only [Ty.hi]; omega)]; rfl
-
-#print axioms rs_ply_clock_panics
-
-/-- non-vacuity: `2 * (2^31 + 1 - 1)` does not fit `u32` -/
-example : Bitboard.ply_clock 0 2147483649 = none := by decide
-
-/-! ### c. Heuristic -/
-theorem rs_win_score : Heuristic.win_score = some Gen.winScore := by decide
-theorem rs_max_full_moves : Heuristic.MAX_FULL_MOVES = some Gen.maxFullMoves := by decide
-theorem rs_loss_score : Heuristic.loss_score = some Eval.lossScore := by decide
-theorem rs_draw_score : Heuristic.draw_score = some Gen.drawScore := by decide
-
-theorem rs_is_checkmate_eq (v : Int) : Heuristic.is_checkmate v = some (Eval.isCheckmateValue v) := by
-  unfold Heuristic.is_checkmate Eval.isCheckmateValue
-  simp only [rs_win_score, rs_max_full_moves, rs_loss_score, Option.bind_eq_bind, Option.bind_some, Option.pure_def,
-    Gen.winScore, Gen.maxFullMoves, Eval.lossScore]
-  rw [chk_i32 (by omega) (by omega), chk_i32 (by omega) (by omega)]
-  simp only [Option.bind_some]
-  by_cases h : (15728640 : Int) < v <;> simp [h] <;> rfl
-
-
-#print axioms rs_is_checkmate_eq
-
-example : Heuristic.is_checkmate 16777000 = some true := by decide
-example : Heuristic.is_checkmate 300 = some false := by decide
-
-theorem rs_evaluate_eq (b : Board) (legal : Bool) (zph : Int) (ht : b.turn ≤ 1) (hf : b.fullmove < 2147483648) :
-    Heuristic.evaluate (Eval.evaluateOngoing b) (b.turn : Int) (b.fullmove : Int) (b.halfmove : Int)
-      (isCurrentInCheck b) zph legal = some (Eval.evaluate b legal) := by
-  unfold Heuristic.evaluate Eval.evaluate
-  have c1 : cast .i32 (b.fullmove : Int) = b.fullmove := cast_i32 (by omega) (by omega)
-  simp only [rs_win_score, rs_loss_score, rs_draw_score, Option.bind_eq_bind, Option.bind_some, Option.pure_def,
-    Heuristic.MAX_HALF_MOVES, Gen.maxHalfMoves, WHITE, BLACK, c1, Gen.winScore, Eval.lossScore]
-  cases legal
-  · simp only [Bool.false_eq_true, if_false]
-    cases hchk : isCurrentInCheck b
-    · simp
-    · have h01 : b.turn = 0 ∨ b.turn = 1 := by omega
-      rcases h01 with h0 | h1
-      · simp [h0]
-        exact chk_i32 (by omega) (by omega)
-      · simp [h1]
-        exact chk_i32 (by omega) (by omega)
-  · simp only [if_true]
-    by_cases hh : b.halfmove ≥ 100
-    · have hh' : (b.halfmove : Int) ≥ 100 := by omega
-      simp [hh, hh']
-    · have hh' : ¬ (b.halfmove : Int) ≥ 100 := by omega
-      simp [hh, hh']
-
-
-#print axioms rs_evaluate_eq
-
-/-- non-vacuity: white is mated at full move 7 / stalemate / fifty-move draw -/
-example : Heuristic.evaluate 55 0 7 3 true 0 false = some (-16777209) := by decide
-example : Heuristic.evaluate 55 1 7 3 false 0 false = some 0 := by decide
-example : Heuristic.evaluate 55 1 7 100 false 0 true = some 0 := by decide
-example : Heuristic.evaluate 55 1 7 99 false 0 true = some 55 := by decide
-
-/-- the Rust `Score` value of a model score -/
-def toRsScore : Eval.Score → Rs.Score
-  | .cp v => .Centipawn v
-  | .mate n => .Mate n
-
-theorem rs_score_from_value_eq (v : Int) (b : Board) (hv : -2147483648 < v) (hv2 : v ≤ 2147483647)
-    (hf : b.fullmove < 2147483648) (hsum : (v.natAbs : Int) + b.fullmove < 16777216 + 2147483648) :
-    Heuristic.score_from_value v (b.turn : Int) (b.fullmove : Int) = some (toRsScore (Eval.scoreFromValue v b)) := by
-  unfold Heuristic.score_from_value Eval.scoreFromValue
-  have c1 : cast .i32 (b.fullmove : Int) = b.fullmove := cast_i32 (by omega) (by omega)
-  have ha : Rs.abs .i32 v = some (v.natAbs : Int) := chk_i32 (by omega) (by omega)
-  have hd : Rs.div .i32 16777216 2 = some 8388608 := by decide
-  simp only [rs_win_score, Option.bind_eq_bind, Option.bind_some, Option.pure_def, Gen.winScore, ha, hd, c1]
-  by_cases hgt : (v.natAbs : Int) > 8388608
-  · have hgt' : (v.natAbs : Int) > 16777216 / 2 := by omega
-    simp only [hgt, hgt', if_true]
-    have hoff : ofBool (decide (v > 0) && decide ((b.turn : Int) = WHITE)) = (if (v > 0 && b.turn == 0) = true then 1 else 0) := by
-      by_cases h1 : v > 0 <;> by_cases h2 : b.turn = 0 <;> simp [ofBool, WHITE, h1, h2]
-    rw [hoff]
-    generalize hoffv : (if (v > 0 && b.turn == 0) = true then (1 : Int) else 0) = off
-    have hoffr : 0 ≤ off ∧ off ≤ 1 := by subst hoffv; split <;> omega
-    have hsg : signum v = v.sign := rfl
-    have hsgn : v.sign = 1 ∨ v.sign = -1 := by
-      rcases Int.lt_trichotomy v 0 with h | h | h
-      · right; exact Int.sign_eq_neg_one_of_neg h
-      · subst h; simp at hgt
-      · left; exact Int.sign_eq_one_of_pos h
-    rw [chk_i32 (by omega) (by omega)]
-    simp only [Option.bind_some]
-    rw [chk_i32 (by omega) (by omega)]
-    simp only [Option.bind_some]
-    rw [chk_i32 (by omega) (by omega)]
-    simp only [Option.bind_some, hsg]
-    rw [chk_i32 (by rcases hsgn with h | h <;> rw [h] <;> omega) (by rcases hsgn with h | h <;> rw [h] <;> omega)]
-    simp [toRsScore]
-  · have hgt' : ¬ (v.natAbs : Int) > 16777216 / 2 := by omega
-    simp [hgt, toRsScore]
-
-
-
-#print axioms rs_score_from_value_eq
-
-/-- non-vacuity: a mate score and a centipawn score -/
-example : Heuristic.score_from_value (16777216 - 9) 0 7 = some (Score.Mate 3) := by decide
-example : Heuristic.score_from_value (-120) 1 7 = some (Score.Centipawn (-120)) := by decide
-/-- outside the precondition the Rust really panics: `i32::MIN.abs()` -/
-example : Heuristic.score_from_value (-2147483648) 0 1 = none := by decide
-
-/-! ### e. `Square::from_chars` -/
-
-/-- `Square::from_index` seen through the square index: `Some(square i)` for `i < 64` (the 64 `match` arms) -/
-def squareFromIndex (i : Int) : Option Nat := if 0 ≤ i ∧ i < 64 then some i.toNat else none
-
-theorem char_lt_2_21 (c : Char) : c.toNat < 1114112 := by
-  have := c.valid
-  rcases this with h | h
-  · have : c.toNat < 55296 := h; omega
-  · exact h.2
-
-theorem rs_from_chars_eq (f r : Char) :
-    Square.from_chars f r squareFromIndex = some (Uci.squareFromChars f r) := by
-  unfold Square.from_chars Uci.squareFromChars
-  have hf := char_lt_2_21 f
-  have hr := char_lt_2_21 r
-  have c1 : cast .usize (ofChar f) = (f.toNat : Int) := cast_usize (by simp [ofChar]) (by simp only [ofChar]; omega)
-  have c2 : cast .usize (ofChar 'a') = 97 := by decide
-  simp only [c1, c2, checkedSub]
-  by_cases h97 : f.toNat < 97
-  · rw [chk_eq_none (by left; simp only [Ty.lo]; omega)]
-    simp [h97]
-  · rw [chk_usize (by omega) (by omega)]
-    simp only [h97, if_false]
-    by_cases hd : FenSyntax.isAsciiDigit r = true
-    · have hd' : 48 ≤ r.toNat ∧ r.toNat ≤ 57 := by
-        simpa [FenSyntax.isAsciiDigit, Char.le_def, Char.lt_def, ← Char.toNat_val, UInt32.le_iff_toNat_le] using hd
-      simp only [toDigit10, hd', and_self, if_true, hd, Bool.not_true, Bool.false_eq_true, if_false]
-      have hw : cast .usize (wrappingSub .u32 8 ((r.toNat : Int) - 48)) = (((8 + 4294967296 - FenSyntax.digitVal r) % 4294967296 : Nat) : Int) := by
-        simp only [wrappingSub, Rs.cast, Ty.lo, Ty.hi, Ty.modulus, FenSyntax.digitVal]; omega
-      rw [hw]
-      unfold Square.from_indices to_square_index_from_indices
-      generalize (8 + 4294967296 - FenSyntax.digitVal r) % 4294967296 = rank
-      by_cases h8 : f.toNat - 97 < 8 ∧ rank < 8
-      · have h8' : ((f.toNat : Int) - 97 < 8) ∧ ((rank : Int) < 8) := by omega
-        simp only [h8, h8', and_self, if_true, Option.bind_eq_bind, Option.pure_def]
-        rw [chk_usize (by omega) (by omega)]
-        simp only [Option.bind_some]
-        rw [chk_usize (by omega) (by omega)]
-        simp only [Option.bind_some, squareFromIndex]
-        have : (0 : Int) ≤ (f.toNat : Int) - 97 + (rank : Int) * 8 ∧ (f.toNat : Int) - 97 + (rank : Int) * 8 < 64 := by omega
-        simp only [this, and_self, if_true]
-        congr 2; omega
-      · have h8' : ¬ (((f.toNat : Int) - 97 < 8) ∧ ((rank : Int) < 8)) := by omega
-        simp [h8, h8']
-    · have hd' : ¬ (48 ≤ r.toNat ∧ r.toNat ≤ 57) := by
-        simpa [FenSyntax.isAsciiDigit, Char.le_def, Char.lt_def, ← Char.toNat_val, UInt32.le_iff_toNat_le] using hd
-      simp [toDigit10, hd', hd]
-
-
-#print axioms rs_from_chars_eq
-
-example : Square.from_chars 'e' '4' squareFromIndex = some (some 36) := by decide
-example : Square.from_chars 'e' '9' squareFromIndex = some none := by decide
-example : Square.from_chars 'A' '1' squareFromIndex = some none := by decide
-
-/-! ### f. `KillerTable::put/get`, the `MvvLvaMoveOrder` sort key -/
-
-/-- the Rust `Move` value of a model move -/
-def toRsMove (m : Board.Move) : Rs.Move := ⟨m.bits.toNat, m.mvvlva⟩
-
-theorem toRsMove_bits_eq (a b : Board.Move) : ((toRsMove a).bits = (toRsMove b).bits) ↔ a.bits = b.bits := by
-  simp [toRsMove, Int.natCast_inj, UInt64.toNat_inj]
-
-theorem rs_killer_get_eq (k : List Board.Move) (d : Nat) :
-    KillerTable.get (k.map toRsMove) (d : Int) = some ((Search.killerGet k d).map toRsMove) := by
-  unfold KillerTable.get Search.killerGet vecGet
-  simp only [Option.pure_def, Int.toNat_natCast, List.getElem?_map]
-  cases k[d]? with
-  | none => rfl
-  | some m =>
-    by_cases hb : m.bits = 0
-    · simp [hb, toRsMove]
-    · have : ¬ m.bits.toNat = 0 := fun h => hb (UInt64.toNat_inj.mp (by simpa using h))
-      simp [hb, toRsMove, this]
-
-#print axioms rs_killer_get_eq
-
-theorem rs_killer_put_eq (k : List Board.Move) (d : Nat) (m : Board.Move) (hd : d < 18446744073709551615) :
-    KillerTable.put (k.map toRsMove) (d : Int) (toRsMove m) = some ((Search.killerPut k d m).map toRsMove) := by
-  unfold KillerTable.put Search.killerPut vecResize vecSet
-  rw [chk_usize (by omega) (by omega)]
-  have e1 : ((d : Int) + 1).toNat = d + 1 := by omega
-  have z : ({ bits := 0, mvvlva := 0 } : Rs.Move) = toRsMove ⟨0, 0⟩ := rfl
-  simp only [Option.bind_eq_bind, Option.bind_some, e1, Int.toNat_natCast, List.length_map, z]
-  by_cases hl : k.length ≥ d + 1
-  · simp only [hl, if_true, ← List.map_take, List.length_map, List.length_take]
-    have : d < min (d + 1) k.length := by omega
-    simp [this, List.map_set]
-  · simp only [hl, if_false, List.length_append, List.length_map, List.length_replicate]
-    have : d < k.length + (d + 1 - k.length) := by omega
-    simp [this, List.map_set]
-
-#print axioms rs_killer_put_eq
-
-/-- non-vacuity: `put` truncates a longer table (the `resize` quirk the model describes) and extends a shorter one -/
-example : KillerTable.put [⟨5, 0⟩, ⟨6, 0⟩, ⟨7, 0⟩] 1 ⟨9, 1⟩ = some [⟨5, 0⟩, ⟨9, 1⟩] := by decide
-example : KillerTable.put [] 2 ⟨9, 1⟩ = some [⟨0, 0⟩, ⟨0, 0⟩, ⟨9, 1⟩] := by decide
-example : KillerTable.get [⟨5, 0⟩, ⟨0, 3⟩] 1 = some none := by decide
-example : KillerTable.get [⟨5, 0⟩, ⟨0, 3⟩] 0 = some (some ⟨5, 0⟩) := by decide
-
-theorem rs_move_bonus_eq (m : Board.Move) (h : Option Board.Move) (b : Int) :
-    MvvLvaMoveOrder.move_bonus (toRsMove m) (h.map toRsMove) b =
-      some (match h with | some x => if x.bits == m.bits then b else 0 | none => 0) := by
-  unfold MvvLvaMoveOrder.move_bonus
-  cases h with
-  | none => rfl
-  | some x =>
-    by_cases hb : x.bits = m.bits
-    · have := (toRsMove_bits_eq x m).mpr hb
-      simp [Option.filter, this, hb]
-    · have hne : ¬ (toRsMove x).bits = (toRsMove m).bits := fun h => hb ((toRsMove_bits_eq x m).mp h)
-      simp [Option.filter, hne, hb]
-
-theorem rs_sort_key_eq (m : Board.Move) (pv tt killer : Option Board.Move)
-    (hlo : -2147483648 ≤ m.mvvlva) (hhi : m.mvvlva + 2400000 ≤ 2147483647) :
-    MvvLvaMoveOrder.sort_key (toRsMove m) (pv.map toRsMove) (tt.map toRsMove) (killer.map toRsMove) =
-      some (Search.moveKey m pv tt killer) := by
-  unfold MvvLvaMoveOrder.sort_key Search.moveKey MvvLvaMoveOrder.eval
-  simp only [rs_move_bonus_eq, Option.bind_eq_bind, Option.bind_some, Option.pure_def]
-  generalize h1 : (match pv with | some x => if x.bits == m.bits then (900000 : Int) else 0 | none => 0) = b1
-  generalize h2 : (match tt with | some x => if x.bits == m.bits then (800000 : Int) else 0 | none => 0) = b2
-  generalize h3 : (match killer with | some x => if x.bits == m.bits then (700000 : Int) else 0 | none => 0) = b3
-  have r1 : 0 ≤ b1 ∧ b1 ≤ 900000 := by
-    subst h1; split
-    · split <;> omega
-    · omega
-  have r2 : 0 ≤ b2 ∧ b2 ≤ 800000 := by
-    subst h2; split
-    · split <;> omega
-    · omega
-  have r3 : 0 ≤ b3 ∧ b3 ≤ 700000 := by
-    subst h3; split
-    · split <;> omega
-    · omega
-  have e : (toRsMove m).mvvlva = m.mvvlva := rfl
-  rw [e, chk_i32 (by omega) (by omega)]
-  simp only [Option.bind_some]
-  rw [chk_i32 (by omega) (by omega)]
-  simp only [Option.bind_some]
-  rw [chk_i32 (by omega) (by omega)]
-  subst h1 h2 h3; rfl
-
-
-#print axioms rs_sort_key_eq
-
-example : MvvLvaMoveOrder.sort_key ⟨77, 500⟩ (some ⟨77, 0⟩) none (some ⟨77, 1⟩) = some 1600500 := by decide
-/-- outside the precondition the Rust really overflows -/
-example : MvvLvaMoveOrder.sort_key ⟨77, 2147000000⟩ (some ⟨77, 0⟩) none none = none := by decide
-
-/-! ### e. `Fen::validate_rank` -/
-
-theorem int_sum_nonneg (l : List Int) (hl : ∀ x ∈ l, 0 ≤ x) : 0 ≤ l.sum := by
-  induction l with
-  | nil => simp
-  | cons x xs ih =>
-    have := hl x (by simp)
-    have := ih (fun y hy => hl y (by simp [hy]))
-    simp only [List.sum_cons]; omega
-
-theorem iterSum_go (t : Ty) (l : List Int) (hl : ∀ x ∈ l, 0 ≤ x) (a : Int) (ha : t.lo ≤ a) (hs : a + l.sum ≤ t.hi) :
-    l.foldl (fun acc x => acc.bind fun a => chk t (a + x)) (some a) = some (a + l.sum) := by
-  induction l generalizing a with
-  | nil => simp
-  | cons x xs ih =>
-    have hx : 0 ≤ x := hl x (by simp)
-    have hxs : ∀ y ∈ xs, 0 ≤ y := fun y hy => hl y (by simp [hy])
-    have hsum : 0 ≤ xs.sum := int_sum_nonneg xs hxs
-    simp only [List.sum_cons] at hs
-    simp only [List.foldl_cons, Option.bind_some]
-    rw [chk_eq_some (by omega) (by omega), ih hxs (a + x) (by omega) (by omega)]
-    simp only [List.sum_cons]; congr 1; omega
-
-theorem isAsciiDigit_iff (c : Char) : FenSyntax.isAsciiDigit c = true ↔ 48 ≤ c.toNat ∧ c.toNat ≤ 57 := by
-  simp [FenSyntax.isAsciiDigit, Char.le_def, ← Char.toNat_val, UInt32.le_iff_toNat_le]
-
-theorem rs_isAsciiDigit_eq (c : Char) : Rs.isAsciiDigit c = FenSyntax.isAsciiDigit c := by
-  by_cases h : FenSyntax.isAsciiDigit c = true
-  · rw [h]; simpa [Rs.isAsciiDigit] using (isAsciiDigit_iff c).mp h
-  · have h' : ¬ (48 ≤ c.toNat ∧ c.toNat ≤ 57) := fun x => h ((isAsciiDigit_iff c).mpr x)
-    simp only [Bool.not_eq_true] at h
-    rw [h]; simpa [Rs.isAsciiDigit] using h'
-
-
-/-- the summand of `count`: `c.to_digit(10).unwrap_or(1)` -/
-theorem rs_digit_or_one (c : Char) :
-    (toDigit10 c).getD 1 = ((if FenSyntax.isAsciiDigit c then FenSyntax.digitVal c else 1 : Nat) : Int) := by
-  by_cases h : FenSyntax.isAsciiDigit c = true
-  · have h' := (isAsciiDigit_iff c).mp h
-    simp only [toDigit10, h', and_self, if_true, h, Option.getD_some, FenSyntax.digitVal]; omega
-  · have h' : ¬ (48 ≤ c.toNat ∧ c.toNat ≤ 57) := fun x => h ((isAsciiDigit_iff c).mpr x)
-    simp [toDigit10, h', h]
-
-theorem rs_count_eq (r : List Char) (hlen : r.length ≤ 400000000) :
-    iterSum .u32 (r.map (fun c => (toDigit10 c).getD 1)) = some ((FenSyntax.rankCount r : Nat) : Int) := by
-  have hmap : r.map (fun c => (toDigit10 c).getD 1) =
-      r.map (fun c => ((if FenSyntax.isAsciiDigit c then FenSyntax.digitVal c else 1 : Nat) : Int)) :=
-    List.map_congr_left (fun c _ => rs_digit_or_one c)
-  have hsum : ∀ l : List Char, ((l.map (fun c => ((if FenSyntax.isAsciiDigit c then FenSyntax.digitVal c else 1 : Nat) : Int))).sum : Int)
-      = (((l.map fun c => if FenSyntax.isAsciiDigit c then FenSyntax.digitVal c else 1).sum : Nat) : Int) := by
-    intro l; induction l with
-    | nil => simp
-    | cons x xs ih => simp only [List.map_cons, List.sum_cons, ih]; omega
-  have hbound : ∀ l : List Char, (l.map fun c => if FenSyntax.isAsciiDigit c then FenSyntax.digitVal c else 1).sum ≤ 9 * l.length := by
-    intro l; induction l with
-    | nil => simp
-    | cons x xs ih =>
-      simp only [List.map_cons, List.sum_cons, List.length_cons]
-      by_cases h : FenSyntax.isAsciiDigit x = true
-      · have := (isAsciiDigit_iff x).mp h
-        have : FenSyntax.digitVal x ≤ 9 := by simp only [FenSyntax.digitVal]; omega
-        simp only [h, if_true]; omega
-      · simp only [h]; simp only [Bool.false_eq_true, if_false]; omega
-  unfold iterSum
-  rw [hmap, iterSum_go .u32 _ (by intro x hx; simp only [List.mem_map] at hx; obtain ⟨c, _, rfl⟩ := hx; omega) 0 (by simp [Ty.lo])
-    (by rw [hsum]; have := hbound r; simp only [Ty.hi]; omega)]
-  rw [hsum]; simp [FenSyntax.rankCount]
-
-theorem rs_strLen_ascii (r : List Char) (hascii : ∀ c ∈ r, c.toNat < 128) : strLen r = (r.length : Int) := by
-  unfold strLen
-  congr 1
-  induction r with
-  | nil => rfl
-  | cons x xs ih =>
-    have hx : x.toNat < 128 := hascii x (by simp)
-    have h1 : x.utf8Size = 1 := by
-      have : x.val.toNat ≤ 127 := by have : x.val.toNat = x.toNat := Char.toNat_val; omega
-      simp only [Char.utf8Size]
-      have h' : x.val ≤ 127 := by rw [UInt32.le_iff_toNat_le]; exact this
-      simp [h']
-    simp only [List.map_cons, List.sum_cons, List.length_cons, h1, ih (fun c hc => hascii c (by simp [hc]))]; omega
-
-/-- the result the Rust function gives for a model verdict -/
-def rankResult (r : List Char) : Except Rs.FenParseError Unit :=
-  match FenSyntax.validateRank r with
-  | none => .ok ()
-  | some .count => .error (.RankWithInvalidPieceCount r (FenSyntax.rankCount r))
-  | some .concurrent => .error (.ConcurrentNumbers r)
-  | some .capture => .ok ()   -- never produced by `validateRank`
-
-theorem validate_rank_loop (r : List Char) (hne : 1 ≤ r.length) (hlen : r.length ≤ 400000000) :
-    ∀ (k i : Nat), i + k = r.length - 1 →
-      Fen.validate_rank.for_1 r r ((r.length : Int) - 1) (k + 1) (i : Int) =
-        some (if FenSyntax.hasAdjacentDigits (r.drop i) then Ctl.ret (Except.error (FenParseError.ConcurrentNumbers r))
-              else Ctl.next ((r.length : Int) - 1)) := by
-  intro k
-  induction k with
-  | zero =>
-    intro i hi
-    have hi' : i = r.length - 1 := by omega
-    have hd : r.drop i = [r[i]'(by omega)] := by
-      rw [List.drop_eq_getElem_cons (by omega)]; congr 1; apply List.drop_of_length_le; omega
-    unfold Fen.validate_rank.for_1
-    have : ¬ ((i : Int) < (r.length : Int) - 1) := by omega
-    simp only [this, if_false, hd, FenSyntax.hasAdjacentDigits, Option.pure_def, Bool.false_eq_true]
-    congr 2; omega
-  | succ k ih =>
-    intro i hi
-    have hlt : (i : Int) < (r.length : Int) - 1 := by omega
-    have hd : r.drop i = r[i]'(by omega) :: r[i+1]'(by omega) :: r.drop (i + 2) := by
-      rw [List.drop_eq_getElem_cons (by omega), List.drop_eq_getElem_cons (by omega)]
-    unfold Fen.validate_rank.for_1
-    have e1 : vecIdx r (i : Int) = some (r[i]'(by omega)) := by simp [vecIdx]
-    have e2 : chk .usize ((i : Int) + 1) = some ((i : Int) + 1) := chk_usize (by omega) (by omega)
-    have e3 : vecIdx r ((i : Int) + 1) = some (r[i+1]'(by omega)) := by
-      have : ((i : Int) + 1).toNat = i + 1 := by omega
-      simp [vecIdx, this]
-    have hd1 : r.drop (i + 1) = r[i+1]'(by omega) :: r.drop (i + 2) := by
-      rw [List.drop_eq_getElem_cons (by omega)]
-    have hrec := ih (i + 1) (by omega)
-    rw [hd1] at hrec
-    simp only [hlt, if_true, e1, e2, e3, Option.bind_eq_bind, Option.bind_some, Option.pure_def, rs_isAsciiDigit_eq, hd,
-      FenSyntax.hasAdjacentDigits]
-    by_cases ha : FenSyntax.isAsciiDigit (r[i]'(by omega)) = true
-    · by_cases hb : FenSyntax.isAsciiDigit (r[i+1]'(by omega)) = true
-      · simp [ha, hb]
-      · simp only [Bool.not_eq_true] at hb
-        simp only [ha, hb, if_true, Bool.and_false, Bool.false_or, Bool.false_eq_true, if_false]
-        have : ((i : Int) + 1) = ((i + 1 : Nat) : Int) := by omega
-        rw [this]; exact hrec
-    · simp only [Bool.not_eq_true] at ha
-      simp only [ha, Bool.false_eq_true, if_false, Bool.false_and, Bool.false_or]
-      have : ((i : Int) + 1) = ((i + 1 : Nat) : Int) := by omega
-      rw [this]; exact hrec
-
-
-/-- **`Fen::validate_rank` (translated) equals the model verdict.**  Preconditions: the rank is ASCII (guaranteed by
-`FEN_REGEX`, which is matched first; for non-ASCII input the Rust loop bound `rank.len()` counts BYTES and `chars[i + 1]`
-can go out of bounds, see the example below) and short enough for the `u32` sum not to overflow. -/
-theorem rs_validate_rank_eq (r : List Char) (hascii : ∀ c ∈ r, c.toNat < 128) (hlen : r.length ≤ 400000000) :
-    Fen.validate_rank r r.length = some (rankResult r) := by
-  unfold Fen.validate_rank rankResult FenSyntax.validateRank
-  rw [rs_count_eq r hlen]
-  simp only [Option.bind_eq_bind, Option.bind_some, Option.pure_def]
-  by_cases hc : FenSyntax.rankCount r ≠ 8
-  · have hc' : ((FenSyntax.rankCount r : Nat) : Int) ≠ 8 := by omega
-    simp [hc, hc']
-  · have hc' : ¬ ((FenSyntax.rankCount r : Nat) : Int) ≠ 8 := by omega
-    have hne : 1 ≤ r.length := by
-      cases r with
-      | nil => simp [FenSyntax.rankCount] at hc
-      | cons x xs => simp
-    rw [rs_strLen_ascii r hascii]
-    simp only [hc, hc', if_false]
-    rw [chk_usize (by omega) (by omega)]
-    simp only [Option.bind_some]
-    have hl := validate_rank_loop r hne hlen (r.length - 1) 0 (by omega)
-    have e : r.length - 1 + 1 = r.length := by omega
-    rw [e] at hl
-    simp only [List.drop_zero] at hl
-    have z : ((0 : Nat) : Int) = 0 := rfl
-    rw [z] at hl
-    rw [hl]
-    by_cases had : FenSyntax.hasAdjacentDigits r = true
-    · simp [had]
-    · simp [had]
-
-#print axioms rs_validate_rank_eq
-
-/-- non-vacuity: accepted rank, wrong count, adjacent digits -/
-example : Fen.validate_rank ['4', 'p', '3'] 3 = some (.ok ()) := by rfl
-example : Fen.validate_rank ['p', 'p', 'p'] 3 = some (.error (.RankWithInvalidPieceCount ['p', 'p', 'p'] 3)) := by rfl
-example : Fen.validate_rank ['4', '4'] 2 = some (.error (.ConcurrentNumbers ['4', '4'])) := by rfl
-/-- outside the precondition (non-ASCII) the Rust function PANICS (`rank.len()` counts bytes; `chars[8]` is out of
-bounds); unreachable in the engine because `FEN_REGEX` is matched first -/
-example : Fen.validate_rank "éééééééé".toList 20 = none := by decide
-
-end Inkayaku.Translated
+import Inkayaku.Props.Translated.Basic
+import Inkayaku.Props.Translated.History
+import Inkayaku.Props.Translated.PlyClock
+import Inkayaku.Props.Translated.Heuristic
+import Inkayaku.Props.Translated.Square
+import Inkayaku.Props.Translated.Ordering
+import Inkayaku.Props.Translated.Fen
+import Inkayaku.Props.Translated.Time
+/-! Umbrella module: the equivalence theorems between the Rust functions translated on every run (`Gen/Rs/*.lean`, by
+`/verif/translator`) and the hand-written model live in `Props/Translated/*.lean`, one file per Rust source. -/
